@@ -4181,6 +4181,17 @@ fn get_arg_type(s: &str, quoted: bool) -> ArgType {
     if s.is_empty() {
         return ArgType::String;
     }
+    if quoted {
+        //a quoted argument is a string (or a list of strings), whatever it looks like
+        let mut prevc = None;
+        for c in s.chars() {
+            if c == '|' && prevc != Some('\\') {
+                return ArgType::List;
+            }
+            prevc = Some(c);
+        }
+        return ArgType::String;
+    }
     let mut numeric = !quoted;
     let mut foundperiod = false;
     let mut prevc = None;
